@@ -49,7 +49,7 @@ def generate(rng, tier):
                 lines.append('joy.r')
         lines.append('joy.r')
         cases.append(('h%d' % k, lines))
-    info = dict(exhaustive=True,
+    info = dict(exhaustive=(tier == 'thorough'),
                 input_distribution=dict(state_event_cases=n, random_histories=len(cases) - n,
                                         ops_total=sum(len(c[1]) for c in cases)),
                 samples=[dict(case=cases[40][0], script=cases[40][1][:12] + ['...'])])
